@@ -8,6 +8,12 @@ NOT_APPLICABLE = {f"C{i:02d}": _PENDING for i in range(1, 21)}
 TRUST = "Trusted: rustc/std float semantics, the harness' own oracle code, the python driver. Held = held on the executions observed (exhaustive only for the sub-domains named in evidence)."
 
 CLAIMS = {
+    "C18": {
+        "text": "History monitor against a sequential executable model: seeded short histories (<= 24 ops; 3000 per type quick, 400000 thorough; 20 Vec-backed struct-of-arrays types covering plain, hue-first, hue-last, single-component and Alpha-wrapped macro arms) of push, pop, extend, collect, clear, drain over every range form (inverted and out-of-range included; fully, partially front/back, or not consumed), indexed and ranged get, get_mut+set, iter_mut+set, forward/backward/interleaved iteration with ExactSizeIterator lengths, owned into_iter, boxed-slice, slice-view and array containers are applied to the real collection and to Vec<Color>; every returned value and, after every operation, all component lengths and contents are compared; panics of drain must coincide. Colours carry unique ids so histories are unambiguous. Subsets run under Miri and ASan (drain and partially consumed iterators), and palette's own debug assertions on component iterator lengths are live.",
+        "design_ref": "DESIGN.md section 3, C18",
+        "note": TRUST + " A leaked (mem::forget) drain is excluded: std leaves the resulting contents unspecified.",
+        "technique": "runtime monitoring: recorded operation histories checked online against a sequential Vec<Color> model (differential, full-state comparison after every op); Miri + ASan on subsets",
+    },
     "C04": {
         "text": "Runtime monitor + sanitizers over the whole casting layer: for 88 instantiations (every colour struct incl. the CAM16 family, Alpha, PreAlpha, Packed<_, [T;N]>, Packed<_, uN>, Luma as uint; f32/f64/u8/u16/u32 and u64/u128 for uint casts) every free function of palette::cast, every method of the cast traits and the std From/AsRef/AsMut/TryFrom impls is called on buffers of all lengths 0..=3N+2 and Vec capacities of every residue; each event checks same address, exact length/capacity scaling, declared field order through named field access with a distinct sentinel per component (alpha last), bit-exact round trip, acceptance iff length (and capacity) is a multiple, and that a rejected buffer comes back with the same pointer, length, capacity and contents. The same driver runs under Miri (stacked borrows, strict provenance, symbolic alignment; thorough adds tree borrows and all types) and under ASan/LSan, with the cast vectors pushed to, shrunk and dropped so that a wrong capacity becomes a heap/layout error; the native run has std ub_checks on.",
         "design_ref": "DESIGN.md section 3, C04",
